@@ -47,8 +47,8 @@ def run_rt_script(script, repo, timeout=120):
 
 def run_bounded(prop, repo, tier, seed):
     """bounded stand-in: runtime contracts on the real code (module bounded/<prop>.py)"""
-    path = os.path.join(HERE, "bounded", "%s.py" % prop.lower())
-    if not os.path.exists(path):
+    path = os.path.join(HERE, "bounded", "run.py")
+    if prop not in BOUNDED_PROPS:
         return None
     env = dict(os.environ)
     env["PYTHONPATH"] = repo + os.pathsep + HERE
@@ -57,7 +57,7 @@ def run_bounded(prop, repo, tier, seed):
     env["VERIF_SEED"] = str(seed)
     t0 = time.time()
     try:
-        p = subprocess.run([PY_RT, path], capture_output=True, text=True, env=env, cwd=HERE,
+        p = subprocess.run([PY_RT, "-m", "bounded.run", prop], capture_output=True, text=True, env=env, cwd=HERE,
                            timeout=3600 if tier == "thorough" else 900)
     except subprocess.TimeoutExpired:
         return {"error": "bounded stand-in timed out", "wall_s": time.time() - t0}
@@ -339,6 +339,8 @@ def replay_file(prop, path, repo):
         return 1
     return 0
 
+
+BOUNDED_PROPS = set("C%02d" % i for i in range(1, 21))
 
 TRUSTED_STATIC = [
     "pyvc engine: AST interpreter + VC generation (own code, guarded by canaries and concrete cross-checks)",
